@@ -13,8 +13,9 @@ ELB = {"i8": 1, "i32": 4, "i64": 8, "i4": 1, "i12": 2}
 
 
 class AllocGen:
-    def __init__(self, rng, views=True, two_mem=False):
+    def __init__(self, rng, views=True, two_mem=False, odd_align=False):
         self.two_mem = two_mem
+        self.odd_align = odd_align  # alignments that are not powers of two (and do not divide each other)
         self.r = rng
         self.n = 0
         self.tag = 0
@@ -78,9 +79,11 @@ class AllocGen:
             self.refs.append(nm)
             self.unused.add(nm)
             self.site_of[nm] = self.tag
-            st = {"k": "alloc", "name": nm, "site": self.tag, "n": n, "el": el, "align": r.choice([1, 4, 8, 64, 64, 256])}
-            if space != "L1":
-                st["space"] = space  # a second memory in the same function (emitted as snax.alloc: memref-to-snax only converts L1)
+            st = {"k": "alloc", "name": nm, "site": self.tag, "n": n, "el": el, "align": r.choice([1, 4, 8, 64, 64, 256] + ([3, 10, 14, 24, 96] if self.odd_align else []))}
+            if space != "L1" or st["align"] & (st["align"] - 1):
+                # a second memory in the same function (emitted as snax.alloc: memref-to-snax only converts L1); alignments
+                # that are not powers of two are written as snax.alloc as well (memref.alloc does not verify with them)
+                st["space"] = space
             return st
         if k == "use":
             return self.use()
